@@ -1312,10 +1312,10 @@ def __is_private(method_name: str) -> bool:
     return method_name.startswith("__") and not method_name.endswith("__")
 
 
-__NAME_MANGLED_PATTERN = re.compile(r"^_[A-Za-z][A-Za-z0-9]*__\w+$")
+__NAME_MANGLED_PATTERN = re.compile(r"^_[^\W_]\w*__\w+$")
 
 
-def __is_name_mangled(name: str) -> bool:
+def __is_name_mangled(name: str, owner: type | None = None) -> bool:
     """Checks whether ``name`` looks like a name-mangled private attribute.
 
     Python mangles a class-private name ``__attr`` defined in class ``Foo`` to
@@ -1326,19 +1326,32 @@ def __is_name_mangled(name: str) -> bool:
 
     Args:
         name: The name to check.
+        owner: The class the name was found on, if known. Only this class and its
+            base classes can have mangled the name, which tells a mangled name from
+            a protected name that merely contains a double underscore.
 
     Returns:
         True, if the name looks like a name-mangled private attribute.
     """
-    return bool(__NAME_MANGLED_PATTERN.fullmatch(name)) and not name.endswith("__")
+    if not __NAME_MANGLED_PATTERN.fullmatch(name) or name.endswith("__"):
+        return False
+    if owner is None:
+        return True
+    return any(
+        name.startswith(f"_{class_.__name__.lstrip('_')}__") for class_ in inspect.getmro(owner)
+    )
 
 
-def __should_skip_by_visibility(name: str, *, add_to_test: bool) -> bool:
+def __should_skip_by_visibility(
+    name: str, *, add_to_test: bool, owner: type | None = None
+) -> bool:
     """Determines whether an element should be skipped based on its visibility.
 
     Args:
         name: The (unqualified) name of the element.
         add_to_test: Whether the element belongs to the module under test.
+        owner: The class on which a method was found; None for functions, whose
+            names are never mangled.
 
     Returns:
         True, if the element should be skipped from analysis.
@@ -1352,7 +1365,7 @@ def __should_skip_by_visibility(name: str, *, add_to_test: bool) -> bool:
         case ElementVisibility.ALL:
             return False
         case ElementVisibility.PROTECTED:
-            return __is_private(name) or __is_name_mangled(name)
+            return __is_private(name) or (owner is not None and __is_name_mangled(name, owner))
         case _:
             return __is_private(name) or __is_protected(name)
 
@@ -1467,6 +1480,10 @@ def __analyse_function(
         if lambda_assigned_name := _get_lambda_assigned_name(
             module_tree, func.__code__.co_firstlineno
         ):
+            if __should_skip_by_visibility(lambda_assigned_name, add_to_test=add_to_test):
+                # The visibility of a lambda is that of the name it is assigned to.
+                LOGGER.debug("Skipping function %s from analysis", lambda_assigned_name)
+                return
             func_name = lambda_assigned_name
             func.__name__ = lambda_assigned_name
         else:
@@ -1697,7 +1714,11 @@ def __analyse_method(
 ) -> None:
     if (
         __is_annotate(method_name)
-        or __should_skip_by_visibility(method_name.rpartition(".")[2], add_to_test=add_to_test)
+        or __should_skip_by_visibility(
+            method_name.rpartition(".")[2],
+            add_to_test=add_to_test,
+            owner=type_info.raw_type if isinstance(type_info.raw_type, type) else None,
+        )
         or __is_constructor(method_name)
         or not __is_method_defined_in_class(type_info.raw_type, method)
         or __is_ignored_method(method)
@@ -2110,7 +2131,7 @@ def __collect_class_methods(module: ModuleType, add: Callable[[Callable[..., Any
         for meth_name, member in inspect.getmembers(cls, predicate=inspect.isfunction):
             if __is_constructor(meth_name):
                 continue
-            if not __should_skip_by_visibility(meth_name, add_to_test=True):
+            if not __should_skip_by_visibility(meth_name, add_to_test=True, owner=cls):
                 add(member)
 
 
